@@ -18,7 +18,7 @@ import (
 
 func runGenerators(c *vh.Ctx) {
 	// GetBoringGREASEValue: every uint16 seed word at every index (Go-side oracle on all 5*2^16 results,
-	// all of index 0 and a random 4096 of each other index to Coq).
+	// 256 structured + ~128 random seed words per index to Coq).
 	for idx := 0; idx < 5; idx++ {
 		var batch [][2]uint64
 		flush := func() {
@@ -39,19 +39,16 @@ func runGenerators(c *vh.Ctx) {
 			v := tls.GetBoringGREASEValue(seed, idx)
 			seen[v] = true
 			if !reserved(v) {
-				c.Fail("form/GetBoringGREASEValue", "GetBoringGREASEValue returned a value outside 0x?A?A",
+				fail(c, "form/GetBoringGREASEValue", "GetBoringGREASEValue returned a value outside 0x?A?A",
 					map[string]any{"seed_word": s, "index": idx}, fmt.Sprintf("0x%04x", v), "0x?A?A")
 			}
-			if idx == 0 || c.Rng.Intn(16) == 0 {
+			if s%16 == 5 && (s/16)%16 == (s/256)%16 || c.Rng.Intn(512) == 0 {
 				batch = append(batch, [2]uint64{uint64(s), uint64(v)})
-				if len(batch) == 2048 {
-					flush()
-				}
 			}
 		}
 		flush()
 		if len(seen) != 16 {
-			c.Fail("fresh/GetBoringGREASEValue", "GetBoringGREASEValue does not reach all 16 reserved values",
+			fail(c, "fresh/GetBoringGREASEValue", "GetBoringGREASEValue does not reach all 16 reserved values",
 				map[string]any{"index": idx}, fmt.Sprintf("%d distinct values", len(seen)), "16")
 		}
 	}
@@ -98,11 +95,11 @@ func runGenerators(c *vh.Ctx) {
 			if outs[0][v] != uint16(v) || outs[1][v] != uint16(v) {
 				treated = append(treated, uint16(v))
 				if !reserved(uint16(v)) {
-					c.Fail("form/isGREASEUint16", "ApplyPreset replaced a cipher suite that is not a GREASE value", map[string]any{"suite": v},
+					fail(c, "form/isGREASEUint16", "ApplyPreset replaced a cipher suite that is not a GREASE value", map[string]any{"suite": v},
 						fmt.Sprintf("0x%04x -> 0x%04x", v, outs[0][v]), "unchanged")
 				}
 			} else if reserved(uint16(v)) {
-				c.Fail("form/isGREASEUint16", "ApplyPreset kept a user-set GREASE cipher suite instead of re-GREASE-ing it", map[string]any{"suite": v},
+				fail(c, "form/isGREASEUint16", "ApplyPreset kept a user-set GREASE cipher suite instead of re-GREASE-ing it", map[string]any{"suite": v},
 					"unchanged on two connections with different GREASE seeds", "replaced by the connection's GREASE value")
 			}
 		}
@@ -173,13 +170,13 @@ func optN(ok bool, v uint64) string { return vh.Opt(ok, vh.N(v)) }
 
 func quicIDOracle(c *vh.Ctx, key string, input any, id uint64) {
 	if id%31 != 27 || id >= 1<<62 {
-		c.Fail(key, "QUIC GREASE transport parameter id is not 31*N+27 below 2^62", input, id, "id % 31 == 27 and id < 2^62")
+		fail(c, key, "QUIC GREASE transport parameter id is not 31*N+27 below 2^62", input, id, "id % 31 == 27 and id < 2^62")
 	}
 }
 
 func quicVersionOracle(c *vh.Ctx, key string, input any, v uint32) {
 	if v&0x0f0f0f0f != 0x0a0a0a0a {
-		c.Fail(key, "QUIC GREASE version is not of the reserved form 0x?a?a?a?a", input, fmt.Sprintf("0x%08x", v), "0x?a?a?a?a")
+		fail(c, key, "QUIC GREASE version is not of the reserved form 0x?a?a?a?a", input, fmt.Sprintf("0x%08x", v), "0x?a?a?a?a")
 	}
 }
 
@@ -213,16 +210,16 @@ func runQUIC(c *vh.Ctx, n int) {
 		d, _ := redraw(l.log, maxUint32, 1)
 		distinct[v] = true
 		quicVersionOracle(c, "quic-version/random-draw", map[string]any{"rand_int_draw": d[0], "entropy": vh.Hex(l.log)}, v)
-		if k%10 == 0 {
+		if k%(draws/200) == 0 {
 			pairs = append(pairs, fmt.Sprintf("(%s, %d)", optN(true, d[0]), v))
 		}
-		if len(pairs) == 250 || (k == draws-1 && len(pairs) > 0) {
+		if len(pairs) == 100 || (k == draws-1 && len(pairs) > 0) {
 			c.Case("quic-version", "(CQuicVersions "+vh.List(pairs)+")", fmt.Sprint("v", k), true, nil)
 			pairs = nil
 		}
 	}
 	if len(distinct) < 2 {
-		c.Fail("fresh/quic-version", "GetGREASEVersion returns the same version on every call", map[string]any{"calls": draws}, len(distinct), "values vary")
+		fail(c, "fresh/quic-version", "GetGREASEVersion returns the same version on every call", map[string]any{"calls": draws}, len(distinct), "values vary")
 	}
 	c.Extra["quic_version_distinct"] = len(distinct)
 	{ // entropy failure: falls back to VERSION_GREASE
@@ -253,16 +250,16 @@ func runQUIC(c *vh.Ctx, n int) {
 		d, _ := redraw(l.log, greaseMaxMultiplier, 1)
 		distinctID[id] = true
 		quicIDOracle(c, "quic-id/random-draw", map[string]any{"rand_int_draw": d[0], "entropy": vh.Hex(l.log)}, id)
-		if k%10 == 0 {
+		if k%(draws/200) == 0 {
 			pairs = append(pairs, fmt.Sprintf("(%s, %d)", optN(true, d[0]), id))
 		}
-		if len(pairs) == 250 || (k == draws-1 && len(pairs) > 0) {
+		if len(pairs) == 100 || (k == draws-1 && len(pairs) > 0) {
 			c.Case("quic-id", "(CQuicIds "+vh.List(pairs)+")", fmt.Sprint("i", k), true, nil)
 			pairs = nil
 		}
 	}
 	if len(distinctID) < 2 {
-		c.Fail("fresh/quic-id", "GetGREASEID returns the same id on every call", map[string]any{"calls": draws}, len(distinctID), "values vary")
+		fail(c, "fresh/quic-id", "GetGREASEID returns the same id on every call", map[string]any{"calls": draws}, len(distinctID), "values vary")
 	}
 	c.Extra["quic_id_distinct"] = len(distinctID)
 	{
@@ -274,7 +271,7 @@ func runQUIC(c *vh.Ctx, n int) {
 	}
 
 	// --- marshaled transport parameters: GREASE parameter (with and without IdOverride) + VersionInformation
-	for k := 0; k < n/2; k++ {
+	for k := 0; k < n/4; k++ {
 		over := uint64(0)
 		switch c.Rng.Intn(4) {
 		case 1:
@@ -300,7 +297,7 @@ func runQUIC(c *vh.Ctx, n int) {
 		withReader(l, func() { body = tps.Marshal() })
 		params, err := parseTPs(body)
 		if err != nil || len(params) != 4 {
-			c.Fail("quic-tp/marshal", "marshaled transport parameters do not parse back", map[string]any{"body": vh.Hex(body)}, fmt.Sprint(err), "4 parameters")
+			fail(c, "quic-tp/marshal", "marshaled transport parameters do not parse back", map[string]any{"body": vh.Hex(body)}, fmt.Sprint(err), "4 parameters")
 			continue
 		}
 		input := map[string]any{"id_override": over, "available_versions": avail, "body": vh.Hex(body)}
@@ -331,7 +328,7 @@ func runQUIC(c *vh.Ctx, n int) {
 		}
 		val := params[3].val
 		if len(val)%4 != 0 || len(val) != 4*(1+len(avail)) {
-			c.Fail("quic-tp/version-information", "version_information value has the wrong length", input, len(val), 4*(1+len(avail)))
+			fail(c, "quic-tp/version-information", "version_information value has the wrong length", input, len(val), 4*(1+len(avail)))
 			continue
 		}
 		var got []string
@@ -343,7 +340,7 @@ func runQUIC(c *vh.Ctx, n int) {
 			if v == tls.VERSION_GREASE {
 				quicVersionOracle(c, "quic-tp/version-information", input, w)
 			} else if w != v {
-				c.Fail("quic-tp/version-information", "a non-GREASE available version was altered", input, fmt.Sprintf("0x%08x", w), fmt.Sprintf("0x%08x", v))
+				fail(c, "quic-tp/version-information", "a non-GREASE available version was altered", input, fmt.Sprintf("0x%08x", w), fmt.Sprintf("0x%08x", v))
 			}
 		}
 		c.Case("quic-version-information", fmt.Sprintf("(CVersionInfo %s %s %s)", vh.List(av), vh.List(ds), vh.List(got)),
